@@ -229,3 +229,24 @@ Definition toy_combine (ps : list tprof) : option tprof :=
     | [] => None
     end
   else None.
+
+(* fetchProfiles (fetch.go:58-78) on the toy instance: when bases were fetched the profile pprof goes
+   on to report on is combine [merged sources; merged bases scaled by -1].  Scale(-1) = ScaleN, which
+   negates every value and drops the samples that end up zero (profile.go:810-823; the float64 round
+   trip is exact for the harness's values, all below 2^53). *)
+Definition toy_neg (p : tprof) : tprof :=
+  {| tp_type := tp_type p; tp_comments := tp_comments p;
+     tp_samples := filter (fun kv => negb (snd kv =? 0)) (map (fun kv => (fst kv, - snd kv)) (tp_samples p)) |}.
+
+Inductive fetch_out := FoStatus (st : status) | FoDiffErr | FoOk (p : tprof).
+
+Definition toy_fetch_profiles (o : gsb_out tprof) : fetch_out :=
+  match g_status o with
+  | StOk =>
+      match g_src o, g_base o with
+      | Some p, None => FoOk p
+      | Some p, Some b => match toy_combine [p; toy_neg b] with Some r => FoOk r | None => FoDiffErr end
+      | None, _ => FoStatus StPanic
+      end
+  | st => FoStatus st
+  end.
